@@ -213,6 +213,27 @@ def fixed_shapes(run):
                     continue
                 judge(run, case, [t], metas, dest, count)
             run.case(["fixed", version, bool(opts)], True, sample=case, classes=["fixed-shape"])
+    # empty files in first, middle and LAST positions of the listing (they belong to no piece of
+    # their own): every one of them is recreated
+    for version in (1, 2, 3):
+        for opts in ({}, {"align": True}) if version == 1 else ({},):
+            t = {"name": "tempty", "files": [("0-first-empty", "r1.0"), ("a.bin", "r2.20000"), ("m/mid-empty", "r1.0"),
+                                             ("n.bin", "r3.16384"), ("zz/last-empty", "r1.0"), ("zzz-last2", "r1.0")],
+                 "pl": 16384, "version": version, "single": False, "source": "own", "create_opts": dict(opts)}
+            case = {"fixed": "empty-files-first-middle-last", "version": version, "opts": opts}
+            with sandbox("c13e") as box:
+                metas = [rb.write_metafile(box, t, 0)]
+                s0 = os.path.join(box, "disk1")
+                write_tree(s0, [("y/" + p, cr.blob_from_token(tok).bytes()) for p, tok in t["files"]])
+                dest = os.path.join(box, "dest")
+                os.makedirs(dest)
+                try:
+                    count = impl.rebuild([metas[0][0]], [s0], dest)
+                except Exception as exc:
+                    run.fail("impl-vs-spec", case, {"raised": repr(exc)[:200]})
+                    continue
+                judge(run, case, [t], metas, dest, count)
+            run.case(["fixed-empty", version, bool(opts)], True, sample=case, classes=["fixed-shape"])
 
 
 def run(tier, seed, replay=None):
